@@ -49,6 +49,10 @@ func (e *fdEngine) fail(o *Out, clause, detail string) {
 		return
 	}
 	o.Fail("C12", clause, detail)
+	// C11 ("a node that stops responding is marked unreachable … restored if heard from again") rests on
+	// the verdict the liveness tick takes from this detector: whatever makes the suspicion level differ
+	// from the window's exact value, or panic, breaks C11's composition theorems too
+	o.Fail("C11", "detector-"+clause, detail)
 }
 
 // New returns the engine.
